@@ -856,9 +856,12 @@ def Engine.handleData (e : Engine) (data : Bytes) : Engine × Res :=
     let cfg : DecodeCfg := { version := e.cfg.version, maxSize := e.inboundMax }
     let r := decodeBytes cfg e.dec data
     let e1 := { e with dec := r.dec }
-    match r.err with
-    | some x => ({ e1 with state := .halted }, .err (match x with | .decodingFailure => "DecodingFailure" | .unimplemented => "Unimplemented"))
-    | none => e1.handlePackets r.packets
+    -- the packets decoded in front of a malformed one are handled first, like those of an earlier read
+    let (e2, r2) := e1.handlePackets r.packets
+    if !r2.isOk then (e2, r2)
+    else match r.err with
+      | some x => ({ e2 with state := .halted }, .err (match x with | .decodingFailure => "DecodingFailure" | .unimplemented => "Unimplemented"))
+      | none => (e2, .ok)
 
 /-! ### service -/
 
@@ -1125,7 +1128,11 @@ def Engine.serviceCore (e : Engine) (cap prefill : Nat) : Engine × Res :=
        if e.now ≥ d then (e, .err "ConnectionEstablishmentFailure")
        else e.serviceQueue false cap prefill)
   | .connected =>
-    let (ea, ra) := e.serviceKeepAlive
+    -- elapsed ack timeouts first: a failure found by this very call must not carry them over to the next connection
+    let (e0, r0) := Engine.processAckTimeouts (e.timeouts.length + 1) e
+    if !r0.isOk then (e0, r0)
+    else
+    let (ea, ra) := e0.serviceKeepAlive
     if !ra.isOk then (ea, ra)
     else
       let (eb, rb) := ea.serviceQueue true cap prefill
